@@ -22,6 +22,7 @@ package c11
 import (
 	"encoding/json"
 	"fmt"
+	"hash/fnv"
 	"math"
 	"math/rand"
 	"reflect"
@@ -104,7 +105,8 @@ function SHAL(v){
   if (v !== null && (typeof v === "object" || typeof v === "function")) return {t:"obj", cls:Object.prototype.toString.call(v)};
   return ENC(v);
 }
-function KEYCHK(k){ if (typeof k !== "string") LOG.push("key is a " + typeof k); }
+// a walk that does not end (a wrong loop bound in the implementation) is cut off: conforming runs of the generated cases stay far below 400 calls
+function KEYCHK(k){ if (LOG.length > 400) throw "runaway walk"; if (typeof k !== "string") LOG.push("key is a " + typeof k); }
 // scripted toJSON method
 function FN(id, f){ return function(k){ KEYCHK(k); LOG.push({f:"tj", id:id, k:UNITS(String(k))}); return f.call(this, k); }; }
 // scripted replacer function
@@ -361,7 +363,8 @@ func (k *checker) handle(box *vmBox, raw []byte) error {
 	n := atomic.AddInt64(&k.n.cases, 1)
 	k.mu.Lock()
 	k.byFam[l.Fam]++
-	if l.Fam != "parse" || l.Rep > 1 { // the explicit families (deterministic content)
+	// the explicit families (deterministic content); the large stringify families are thinned by a content hash
+	if (l.Fam != "parse" || l.Rep > 1) && ((l.Fam != "str" && l.Fam != "rt1") || contentHash(l.Js)%4 == 0) {
 		k.kept = append(k.kept, raw)
 	}
 	k.mu.Unlock()
@@ -965,6 +968,14 @@ func (k *checker) selfTest() (map[string]any, error) {
 		return nil, firstErr
 	}
 	return res, nil
+}
+
+func contentHash(parts []json.RawMessage) uint32 {
+	h := fnv.New32a()
+	for _, p := range parts {
+		h.Write(p)
+	}
+	return h.Sum32()
 }
 
 func trunc(s string, n int) string {
